@@ -69,6 +69,7 @@ def judge_string(ctx, d, data, enum=False, entry="from_string"):
     ctx.ev()
     want = rpoints.decode(d.c, d.n, data, allow_raw=True)
     case = {"kind": "string", "curve": d.name, "data": data.hex()}
+    ctx.case_sample(case)
     try:
         vk = VerifyingKey.from_string(data, curve=d.lib)
         got = ("ok", (int(vk.pubkey.point.x()), int(vk.pubkey.point.y())))
